@@ -26,17 +26,19 @@ func facts() map[string]any {
 		"tombstone_file": resolver.VerifC09TombstoneFile,
 		// 0 / false = "not found in the expected shape": the side
 		// conditions in Props/C09.lean then fail.
-		"add_holddown_hours":                        0,
-		"missing_holddown_hours":                    0,
-		"add_holddown_from_first_seen":              false,
-		"missing_holddown_from_first_seen":          false,
-		"shape_tomb_write_before_state_write":       false,
-		"shape_markers_dropped_only_after_tomb_ok":  false,
-		"shape_corrupt_tombstones_clear_trust":      false,
-		"shape_both_writes_failed_clears_trust":     false,
-		"shape_unreadable_tombstones_use_empty_map": false,
-		"shape_unreadable_tombstones_clear_trust":   false,
-		"shape_prefetch_publish_gated_on_prior":     false,
+		"add_holddown_hours":                          0,
+		"missing_holddown_hours":                      0,
+		"add_holddown_from_first_seen":                false,
+		"missing_holddown_from_first_seen":            false,
+		"shape_tomb_write_before_state_write":         false,
+		"shape_missing_clock_starts_at_disappearance": false,
+		"tomb_read_outcomes":                          readOutcomes(),
+		"shape_markers_dropped_only_after_tomb_ok":    false,
+		"shape_corrupt_tombstones_clear_trust":        false,
+		"shape_both_writes_failed_clears_trust":       false,
+		"shape_unreadable_tombstones_use_empty_map":   false,
+		"shape_unreadable_tombstones_clear_trust":     false,
+		"shape_prefetch_publish_gated_on_prior":       false,
 	}
 	repo := os.Getenv("VERIF_REPO")
 	if repo == "" {
@@ -61,29 +63,86 @@ func facts() map[string]any {
 		_ = printer.Fprint(&b, fset, n)
 		return b.String()
 	}
-	// hold-down literals: `if ta.State == StateX && time.Since(ta.FirstSeen) > N*time.Hour`
+	// hold-down durations: `if ta.State == StateX && time.Since(ta.FirstSeen) > <duration>` where the
+	// duration is a constant expression: N*time.Hour, 30*24*time.Hour, or a named constant defined
+	// in this file by such an expression. Evaluated to nanoseconds.
+	consts := map[string]ast.Expr{}
+	ast.Inspect(file, func(x ast.Node) bool {
+		if gd, ok := x.(*ast.GenDecl); ok && gd.Tok == token.CONST {
+			for _, sp := range gd.Specs {
+				if vs, ok := sp.(*ast.ValueSpec); ok {
+					for i, n := range vs.Names {
+						if i < len(vs.Values) {
+							consts[n.Name] = vs.Values[i]
+						}
+					}
+				}
+			}
+		}
+		return true
+	})
+	units := map[string]int64{"time.Nanosecond": 1, "time.Microsecond": 1e3, "time.Millisecond": 1e6,
+		"time.Second": 1e9, "time.Minute": 60e9, "time.Hour": 3600e9}
+	var evalNS func(e ast.Expr, depth int) (int64, bool)
+	evalNS = func(e ast.Expr, depth int) (int64, bool) {
+		if depth > 8 {
+			return 0, false
+		}
+		switch x := e.(type) {
+		case *ast.BasicLit:
+			if x.Kind == token.INT {
+				v, err := strconv.ParseInt(x.Value, 0, 64)
+				return v, err == nil
+			}
+		case *ast.ParenExpr:
+			return evalNS(x.X, depth+1)
+		case *ast.SelectorExpr:
+			u, ok := units[src(x)]
+			return u, ok
+		case *ast.Ident:
+			if d, ok := consts[x.Name]; ok {
+				return evalNS(d, depth+1)
+			}
+		case *ast.BinaryExpr:
+			a, ok1 := evalNS(x.X, depth+1)
+			b, ok2 := evalNS(x.Y, depth+1)
+			if ok1 && ok2 {
+				switch x.Op {
+				case token.MUL:
+					return a * b, true
+				case token.ADD:
+					return a + b, true
+				case token.SUB:
+					return a - b, true
+				case token.QUO:
+					if b != 0 {
+						return a / b, true
+					}
+				}
+			}
+		case *ast.CallExpr: // time.Duration(x)
+			if len(x.Args) == 1 && src(x.Fun) == "time.Duration" {
+				return evalNS(x.Args[0], depth+1)
+			}
+		}
+		return 0, false
+	}
 	hours := func(cond ast.Expr) (int, bool) {
 		n, found, fromFirst := 0, 0, false
 		ast.Inspect(cond, func(x ast.Node) bool {
 			be, ok := x.(*ast.BinaryExpr)
-			if !ok {
+			if !ok || (be.Op != token.GTR && be.Op != token.GEQ) {
 				return true
 			}
-			if be.Op == token.GTR || be.Op == token.GEQ {
-				if strings.Contains(src(be.X), "time.Since(ta.FirstSeen)") {
-					fromFirst = true
-				}
-				if m, ok := be.Y.(*ast.BinaryExpr); ok && m.Op == token.MUL {
-					lit, unit := m.X, m.Y
-					if _, isLit := lit.(*ast.BasicLit); !isLit {
-						lit, unit = m.Y, m.X
-					}
-					if bl, ok := lit.(*ast.BasicLit); ok && bl.Kind == token.INT && src(unit) == "time.Hour" {
-						v, _ := strconv.Atoi(bl.Value)
-						n = v
-						found++
-					}
-				}
+			if !strings.Contains(src(be.X), "time.Since(") {
+				return true
+			}
+			if strings.Contains(src(be.X), "time.Since(ta.FirstSeen)") {
+				fromFirst = true
+			}
+			if ns, ok := evalNS(be.Y, 0); ok && ns > 0 {
+				n = int(ns / 3600e9) // whole hours, rounded down: the side conditions are lower bounds
+				found++
 			}
 			return true
 		})
@@ -100,10 +159,15 @@ func facts() map[string]any {
 			return true
 		}
 		c := src(is.Cond)
-		if !strings.Contains(c, "time.Hour") {
+		if !strings.Contains(c, "time.Since(") {
 			return true
 		}
 		n, first := hours(is.Cond)
+		// the state the timer belongs to: named in the condition itself, or the
+		// `case StateX:` clause of a switch on ta.State that encloses the if
+		if !strings.Contains(c, "ta.State == State") {
+			c += " " + enclosingCase(fn.Body, is, src)
+		}
 		switch {
 		case strings.Contains(c, "ta.State == StateAddPend"):
 			addN = append(addN, n)
@@ -122,6 +186,37 @@ func facts() map[string]any {
 		out["missing_holddown_hours"] = missN[0]
 		out["missing_holddown_from_first_seen"] = missFirst
 	}
+
+	// the 90-day clock starts when a Valid key disappears: inside `case StateValid:` (switch on
+	// ta.State) or `if ta.State == StateValid` the state becomes Missing and FirstSeen = time.Now()
+	ast.Inspect(fn.Body, func(x ast.Node) bool {
+		var body []ast.Stmt
+		switch y := x.(type) {
+		case *ast.CaseClause:
+			for _, e := range y.List {
+				if src(e) == "StateValid" && len(y.List) == 1 {
+					body = y.Body
+				}
+			}
+		case *ast.IfStmt:
+			if src(y.Cond) == "ta.State == StateValid" {
+				body = y.Body.List
+			}
+		}
+		toMissing, stamp := false, false
+		for _, st := range body {
+			switch src(st) {
+			case "ta.State = StateMissing":
+				toMissing = true
+			case "ta.FirstSeen = time.Now()":
+				stamp = true
+			}
+		}
+		if toMissing && stamp {
+			out["shape_missing_clock_starts_at_disappearance"] = true
+		}
+		return true
+	})
 
 	// persistence tail: statement order at the top level of the function body
 	idx := func(pred func(ast.Stmt) bool) []int {
@@ -243,6 +338,67 @@ func facts() map[string]any {
 		if is, ok := s.(*ast.IfStmt); ok && src(is.Cond) == "priorTrustValid" && strings.Contains(src(is.Body), "r.rootKeys = candidate") {
 			out["shape_prefetch_publish_gated_on_prior"] = true
 		}
+	}
+	return out
+}
+
+// enclosingCase returns "ta.State == <X>" for the `case X:` clause (of a switch
+// on ta.State) that contains node n, or "".
+func enclosingCase(root ast.Node, n ast.Node, src func(ast.Node) string) string {
+	res := ""
+	ast.Inspect(root, func(x ast.Node) bool {
+		sw, ok := x.(*ast.SwitchStmt)
+		if !ok || sw.Tag == nil || src(sw.Tag) != "ta.State" {
+			return true
+		}
+		for _, c := range sw.Body.List {
+			cc := c.(*ast.CaseClause)
+			if cc.Pos() <= n.Pos() && n.End() <= cc.End() {
+				for _, e := range cc.List {
+					res += "ta.State == " + src(e) + " "
+				}
+			}
+		}
+		return true
+	})
+	return res
+}
+
+// readOutcomes runs the REAL readTombstones / readFromTAFile over the finite
+// domain of file conditions the model distinguishes and reports each outcome.
+func readOutcomes() []string {
+	dir := filepath.Join(baseDir(), "facts")
+	_ = os.RemoveAll(dir)
+	if err := os.MkdirAll(dir, 0o750); err != nil {
+		return []string{"error: " + err.Error()}
+	}
+	defer os.RemoveAll(dir)
+	good := filepath.Join(dir, "good")
+	ts := resolver.Tombstones{"fp": &resolver.Tombstone{DNSKey: getKey(1).dnskey(385)}}
+	writeGob(good, &ts)
+	full, _ := os.ReadFile(good)
+	mk := func(name string, data []byte) string {
+		p := filepath.Join(dir, name)
+		_ = os.WriteFile(p, data, 0o600)
+		return p
+	}
+	loop := filepath.Join(dir, "loop")
+	_ = os.Symlink(loop, loop)
+	sub := filepath.Join(dir, "subdir")
+	_ = os.Mkdir(sub, 0o750)
+	cases := []struct{ name, path string }{
+		{"absent", filepath.Join(dir, "nope")},
+		{"valid", good},
+		{"zero-length", mk("zero", nil)},
+		{"truncated", mk("trunc", full[:len(full)/2])},
+		{"one-byte", mk("one", full[:1])},
+		{"garbage", mk("garbage", []byte("\x07not a gob stream"))},
+		{"directory", sub},
+		{"unopenable", loop},
+	}
+	var out []string
+	for _, c := range cases {
+		out = append(out, c.name+"="+resolver.VerifC09ReadTombstones(c.path))
 	}
 	return out
 }
